@@ -731,14 +731,14 @@ static carquet_status_t parse_page_header_fread(
         return status;
     }
 
-    static const size_t windows[] = { 8192, 1024 * 1024 };
-    for (size_t i = 0; i < sizeof(windows) / sizeof(windows[0]); i++) {
-        uint8_t* buf = malloc(windows[i]);
+    /* Retry with a window that grows until the header parses or the file ends */
+    for (size_t window = 8192; ; window *= 16) {
+        uint8_t* buf = malloc(window);
         if (!buf) {
             CARQUET_SET_ERROR(error, CARQUET_ERROR_OUT_OF_MEMORY, "Failed to allocate page header buffer");
             return CARQUET_ERROR_OUT_OF_MEMORY;
         }
-        size_t got = file_read_at(file, offset, buf, windows[i]);
+        size_t got = file_read_at(file, offset, buf, window);
         if (got == (size_t)-1) {
             free(buf);
             CARQUET_SET_ERROR(error, CARQUET_ERROR_FILE_SEEK, "Failed to seek to page header");
@@ -752,7 +752,7 @@ static carquet_status_t parse_page_header_fread(
             return CARQUET_OK;
         }
         if (error) *error = retry_error;
-        if (got < windows[i]) {
+        if (got < window || window > SIZE_MAX / 16) {
             break;  /* that was the rest of the file */
         }
     }
